@@ -64,3 +64,26 @@ extern "C" void h_general(void) {
    }
    vp_done();
 }
+// two general substitutions requested up front and filled afterwards (the way a front end prepares "explicit" and "deduced" arguments),
+// and an elementary one alongside: each is its own finite map
+#ifndef C16_K2
+#define C16_K2 3
+#endif
+extern "C" void h_two_substitutions(void) {
+   World* w = new World;
+   impl::General_substitution* g[2] = { w->lx.make_general_substitution(), w->lx.make_general_substitution() };
+   vp_assert(g[0] != g[1], 20);                                   // a generative constructor: every call yields a fresh object
+   const ipr::Expr* last[2][3] = { };
+   const ipr::Substitution& el = *w->lx.make_elementary_substitution(*w->P[0], *w->V[1]);
+   for (int k = 0; k < C16_K2; ++k) {
+      unsigned i = vp_pick(2), p = vp_pick(3), v = vp_pick(3);
+      const ipr::Expr* val = v == 0 ? w->V[0] : v == 1 ? w->V[2] : static_cast<const ipr::Expr*>(w->P[(p + 1) % 3]);
+      g[i]->subst(*w->P[p], *val); last[i][p] = val;
+      for (int j = 0; j < 2; ++j) for (int q = 0; q < 3; ++q) {
+         const ipr::Expr& e = (*g[j])[*w->P[q]];
+         vp_assert(&e == (last[j][q] ? last[j][q] : static_cast<const ipr::Expr*>(w->P[q])), 21);
+      }
+      vp_assert(&el[*w->P[0]] == w->V[1] && &el[*w->P[1]] == w->P[1], 22);
+   }
+   vp_done();
+}
